@@ -944,7 +944,10 @@ func (w *c12World) stage(scn c12Scn, c c12Case) sdk.Context {
 	if c.prep != nil {
 		c.prep(w, ctx)
 	}
-	if scn.brk {
+	if scn.brk && scn.recs == "viamsg" {
+		// the breaker is switched on the way the chain does it: the admin's real MsgKillSwitch
+		w.mustDeliver(ctx, &esmtypes.MsgKillRequest{From: w.admin.String(), KillSwitchParams: &esmtypes.KillSwitchParams{AppId: appID, BreakerEnable: true}}, "MsgKillSwitch")
+	} else if scn.brk {
 		w.must(w.app.EsmKeeper.SetKillSwitchData(ctx, esmtypes.KillSwitchParams{AppId: appID, BreakerEnable: true}), "breaker")
 	} else if scn.recs == "false" {
 		// the record a disable after an enable leaves behind
@@ -1905,6 +1908,7 @@ func TestC14(t *testing.T) {
 			{esm: "in", price: "all", recs: "false"},               // kill-switch record present with BreakerEnable=false, ESM executed
 			{esm: "none", price: "all", recs: "otherapp"},          // another app's breaker on and ESM executed: must succeed
 			{brk: true, esm: "in", price: "all", recs: "otherapp"}, // breaker on + ESM executed (+ another app's too)
+			{brk: true, esm: "none", price: "all", recs: "viamsg"}, // breaker switched on by the admin's real MsgKillSwitch
 		} {
 			ctx := w.stage(scn, c)
 			before := w.dump(ctx)
@@ -1920,6 +1924,8 @@ func TestC14(t *testing.T) {
 			}
 		}
 	}
+	// what it takes to trigger the shutdown / switch the breaker: DepositESM / ExecuteESM / MsgKillSwitch preconditions (shared with C12)
+	c12Preconditions(t, tr, w)
 	c14PriceSubsets(t, tr, w, cat)
 	c14TimeWindows(t, tr, w)
 	c14Units(t, tr, w)
